@@ -60,7 +60,8 @@ struct Rank {
 };
 
 static int N = 1, PPN = 0;
-static bool CYCLIC = false;   // ranks placed on the nodes round-robin (mpirun --map-by node) instead of in blocks
+static bool CYCLIC = false;
+static std::vector<int> PLACEMENT;   // explicit node label of every world rank (any uniform placement)   // ranks placed on the nodes round-robin (mpirun --map-by node) instead of in blocks
 static uint64_t seed = 1, step = 0, last_progress = 0, maxsteps = 20000000ull, spinlimit = 200000ull;
 static std::string policy = "uniform", glogpath, logdir;
 static uint64_t eager = 4096;
@@ -210,7 +211,7 @@ static void coll_compute(Coll &c) {
     for (size_t i = 0; i < mem.size(); ++i) {
       int w = mem[i];
       int color = c.colorkey[w].first;
-      if (color == -7777) color = CYCLIC ? w % (N / PPN) : w / PPN;
+      if (color == -7777) color = !PLACEMENT.empty() ? PLACEMENT[w] : CYCLIC ? w % (N / PPN) : w / PPN;
       groups[color].push_back({{c.colorkey[w].second, (int)i}, w});
     }
     for (auto &g : groups) {
@@ -532,6 +533,7 @@ int main(int argc, char **argv) {
     if (a == "-n") N = atoi(next().c_str());
     else if (a == "-ppn") PPN = atoi(next().c_str());
     else if (a == "-cyclic") CYCLIC = true;
+    else if (a == "-placement") { std::string v = next(); size_t p = 0; while (p < v.size()) { size_t q = v.find(',', p); if (q == std::string::npos) q = v.size(); PLACEMENT.push_back(atoi(v.substr(p, q - p).c_str())); p = q + 1; } }
     else if (a == "-seed") seed = strtoull(next().c_str(), nullptr, 10);
     else if (a == "-policy") policy = next();
     else if (a == "-eager") eager = strtoull(next().c_str(), nullptr, 10);
